@@ -653,14 +653,21 @@ class SymComplex:
     def __rsub__(self, o):
         return SymComplex.lift(o) - self
 
+    def _im0(self):
+        return (not is_sym(self.im)) and self.im == 0
+
     def __mul__(self, o):
         o = SymComplex.lift(o)
+        if self._im0() and o._im0():
+            return SymComplex(self.re * o.re, 0.0)
         return SymComplex(self.re * o.re - self.im * o.im, self.re * o.im + self.im * o.re)
 
     __rmul__ = __mul__
 
     def __truediv__(self, o):
         o = SymComplex.lift(o)
+        if self._im0() and o._im0():
+            return SymComplex(self.re / o.re, 0.0)
         den = o.re * o.re + o.im * o.im
         return SymComplex((self.re * o.re + self.im * o.im) / den, (self.im * o.re - self.re * o.im) / den)
 
@@ -675,6 +682,10 @@ class SymComplex:
             return r
         if isinstance(n, int):
             return 1 / (self ** (-n))
+        if self.is_real():
+            from .special import sym_pow
+
+            return SymComplex(sym_pow(self.re, n) if (is_sym(self.re) or is_sym(n)) else self.re**n, 0.0)
         raise Unsupported("complex power with a non-integer exponent")
 
     def is_real(self):
